@@ -195,7 +195,6 @@ Qed.
 Definition opt_comp (base : bytes) : list bytes := match base with [] => [] | _ :: _ => [base] end.
 Definition name_ok (n : bytes) : Prop := n = [] \/ real_elem n.
 Definition prefix_of (a b : list bytes) : Prop := exists t, b = a ++ t.
-Definition is_dir_node (n : anode) : bool := match n with NDir _ _ => true | _ => false end.
 
 Lemma prefix_of_refl a : prefix_of a a.
 Proof. exists []. now rewrite app_nil_r. Qed.
@@ -227,8 +226,9 @@ Proof.
 Qed.
 
 (* what a returned node looks like *)
-Definition node_shape (started : bool) (cs : list bytes) (nd : anode) (base dir' : bytes) : Prop :=
-  exists cs0, prefix_of cs0 cs /\ Forall real_elem cs0 /\ name_ok base /\ (base = [] -> started = false) /\
+Definition node_shape (started : dstate) (cs : list bytes) (nd : anode) (base dir' : bytes) : Prop :=
+  started <> LeafRoot /\
+  exists cs0, prefix_of cs0 cs /\ Forall real_elem cs0 /\ name_ok base /\ (base = [] -> started = Fresh) /\
               node_name nd = rel (cs0 ++ opt_comp base) /\
               dir' = rel (if is_dir_node nd then cs0 ++ opt_comp base else cs0).
 
@@ -239,11 +239,13 @@ Lemma finish_entry_shape started cs0 cs l e rest nd base dir' rest' :
 Proof.
   intros P F N E. unfold finish_entry in E. destruct e as [[[mode uid] gid] mtime].
   destruct (nameless_rejected Fixed started (l_name l)) eqn:NR; [discriminate|].
-  assert (Hs : l_name l = [] -> started = false).
-  { intros E0. rewrite E0 in NR. exact NR. }
+  destruct (leaf_rejected Fixed started) eqn:LR; [discriminate|].
+  assert (Hs : l_name l = [] -> started = Fresh).
+  { intros E0. rewrite E0 in NR. cbn in NR. now destruct started. }
+  assert (Hl : started <> LeafRoot) by (intros ->; discriminate).
   pose proof (join_rel_opt cs0 (l_name l) F N) as J.
   destruct (l_payload l) as [data|]; [|destruct (l_device l) as [[major minor]|]; [|destruct (l_symlink l) as [t|]]];
-    inversion E; subst; (split; [|reflexivity]); exists cs0; repeat split; auto.
+    inversion E; subst; (split; [|reflexivity]); (split; [exact Hl|]); exists cs0; repeat split; auto.
 Qed.
 
 Lemma next_loop_shape : forall inp started cs0 cs l nd base dir' rest,
@@ -289,6 +291,7 @@ Lemma finish_entry_rest pol started dir l e rest nd base dir' rest' :
 Proof.
   unfold finish_entry. destruct e as [[[mode uid] gid] mtime].
   destruct (nameless_rejected pol started (l_name l)); [discriminate|].
+  destruct (leaf_rejected pol started); [discriminate|].
   destruct (l_payload l); [|destruct (l_device l) as [[? ?]|]; [|destruct (l_symlink l)]]; intros E; now inversion E.
 Qed.
 
